@@ -166,10 +166,14 @@ func (s *S) handle(method string, c context.Context, in []byte) ([]byte, error) 
 	}
 	out := Reply(in)
 	if c != nil {
-		if buf := rpc.GetContextBuffer(c); cap(buf) >= len(out) && len(out) > 0 {
+		if buf := rpc.GetContextBuffer(c); cap(buf) >= len(out) && len(out) > 0 && e.Spec.Counter%3 != 0 {
 			buf = buf[:len(out)]
 			copy(buf, out)
 			out = buf
+		} else if e.Spec.Counter%3 == 0 {
+			// a handler that does not use the context buffer for its reply
+			// hands it back, as the documentation of FreeContextBuffer says
+			rpc.FreeContextBuffer(c)
 		}
 	}
 	s.L.exit(e, false)
